@@ -31,7 +31,7 @@ Deliver, in your final message:
   - the path of a file {wt}/demo.diff containing ONLY the demonstration (the new test file and the one `mod` line),
   - the exact command to run the demonstration,
   - 3-6 sentences: what the change is, why it breaks the property, and exactly what is needed for it to manifest (which instructions in which order, which values, which configuration).
-Leave the worktree with BOTH the change and the demonstration applied. Be economical: read only the code you need."""
+Leave the worktree with BOTH the change and the demonstration applied. Be economical: read only the code you need. NEVER use `git stash` (the stash is shared between worktrees and other people work in sibling worktrees): to run the demonstration without your change use `git apply -R patch.diff`, then `git apply patch.diff` to restore it."""
 + ("""
 
 HARD MODE: assume the verification tool is a randomized end-to-end simulator that executes the real program with many users, admins, liquidators, oracle updates and clock advances, and re-checks this property after every instruction against an independent model. A change that any ordinary sequence of a few instructions exposes will be caught at once and is useless. Make the breakage depend on a CONJUNCTION of at least three uncommon conditions (for example: a specific configuration value AND a particular order of two different instruction kinds AND an elapsed-time or boundary condition; or a rarely used instruction AND a particular account state AND a specific argument combination). Say precisely what the conjunction is.""" if HARD else "")
